@@ -261,6 +261,8 @@ def _type_of(v):
         return bool
     if isinstance(v, SFloat):
         return float
+    if type(v).__name__ == 'SComplex':
+        return complex
     return type(v)
 
 
@@ -268,7 +270,7 @@ def m_isinstance(eng, st, args, kw, fr):
     v, t = args
     if isinstance(v, Unknown) or isinstance(t, Unknown):
         return _ret(st, Unknown('isinstance'))
-    if isinstance(v, (SInt, SBool, SFloat)):
+    if isinstance(v, (SInt, SBool, SFloat)) or type(v).__name__ == 'SComplex':
         tt = _type_of(v)
 
         def flat(x):
@@ -298,6 +300,8 @@ def m_hasattr(eng, st, args, kw, fr):
         return _ret(st, hasattr(0, name))
     if isinstance(obj, SFloat):
         return _ret(st, hasattr(0.5, name))
+    if type(obj).__name__ == 'SComplex':
+        return _ret(st, hasattr(0.5j, name))
     h = st.heap.get((id(obj), name))
     if h is not None:
         from .engine import _MISSING as EM
